@@ -106,4 +106,48 @@ BOOST_AUTO_TEST_CASE( printing)
 
 
 
+/// The end of the scope of a scoped attribute removes the entry of this scoped
+/// attribute, not another attribute with the same name that was added or
+/// removed in the meantime.
+///
+/// @since  1.47.0, 30.09.2026
+BOOST_AUTO_TEST_CASE( scoped_attribute_removes_its_own_entry)
+{
+
+   Logging::reset();
+
+   {
+      LOG_ATTRIBUTE( "shade", "dark");
+
+      BOOST_REQUIRE_EQUAL( Logging::instance().getAttribute( "shade"), "dark");
+
+      // permanent attribute with the same name, added within the scope
+      Logging::instance().addAttribute( "shade", "light");
+      BOOST_REQUIRE_EQUAL( Logging::instance().getAttribute( "shade"), "light");
+   } // end scope
+
+   // the permanent attribute stays, the scoped attribute is gone
+   BOOST_REQUIRE_EQUAL( Logging::instance().getAttribute( "shade"), "light");
+   Logging::instance().removeAttribute( "shade");
+   BOOST_REQUIRE_EQUAL( Logging::instance().getAttribute( "shade"), "");
+
+   Logging::instance().addAttribute( "color", "blue");
+
+   {
+      LOG_ATTRIBUTE( "color", "green");
+
+      // removes the newest attribute with this name: the scoped one
+      Logging::instance().removeAttribute( "color");
+      BOOST_REQUIRE_EQUAL( Logging::instance().getAttribute( "color"), "blue");
+   } // end scope
+
+   // the older attribute was not touched by the end of the scope
+   BOOST_REQUIRE_EQUAL( Logging::instance().getAttribute( "color"), "blue");
+
+   Logging::reset();
+
+} // scoped_attribute_removes_its_own_entry
+
+
+
 // =====  END OF test_logging.cpp  =====
